@@ -2767,6 +2767,14 @@ class Interp:
                 if ok:
                     return [(y, obj)]
             return [(st, obj)]
+        if kind == 'ext' and callee in ('types.SimpleNamespace', 'SimpleNamespace') and not args \
+                and all(k not in (None, '**') for k, _v in kws) and getattr(e, 'lineno', None) is not None:
+            # a record made on the spot: its fields are read and written like those of a helper object
+            obj = T.mk(('new', 'SimpleNamespace@%d:%d' % (e.lineno, e.col_offset), (), ()))
+            y = st
+            for k, v in kws:
+                y = y.with_var(HEAP, (obj, k), v)
+            return [(y, obj)]
         if kind == 'ext' and callee == 'type' and len(args) == 1 and not kws and args[0][0] == 'exc':
             return [(st, T.mk(('exctype', args[0][1])))]
         if kind == 'ext' and callee == 'issubclass' and len(args) == 2 and not kws and args[0][0] == 'exctype':
